@@ -10,6 +10,7 @@ from stix2.base import _STIXBase
 from stix2.datastore import DataSink, DataSource, DataStoreMixin
 from stix2.datastore.filters import FilterSet, apply_common_filters
 from stix2.parsing import parse
+from stix2.utils import timestamp_sort_key
 
 
 def _add(store, stix_data, allow_custom=True, version=None):
@@ -82,7 +83,8 @@ class _ObjectFamily(object):
         self.all_versions[obj["modified"]] = obj
         if (
             self.latest_version is None or
-            obj["modified"] > self.latest_version["modified"]
+            timestamp_sort_key(obj["modified"]) >
+            timestamp_sort_key(self.latest_version["modified"])
         ):
             self.latest_version = obj
 
